@@ -35,7 +35,6 @@ for line in open(os.path.join(VERIF, "properties.jsonl")):
 NOT_APPLICABLE = {"C11"}
 
 LEVELS = {  # level reported in the evidence (must match MANIFEST)
-    "C10": "model_checking",
 }
 
 
@@ -169,7 +168,8 @@ def main():
     kt.start()
     # ---- Verus: whole crate, woven from /repo's working tree -------------------------------
     res = verus_run.run(REPO, vacuity=(tier == "thorough" or prop in ("C01", "C02")), threads=8)
-    undecided = list(res.undecided)
+    # undecided items tied to one function only leave the properties tagged on that function undecided
+    undecided = [u for u in res.undecided if "tags" not in u or prop in u["tags"]]
     violations, known = [], []
     for f in res.failures:
         if prop not in f["tags"]:
